@@ -282,14 +282,38 @@ pub mod conv {
 	use quill::tree::names::{Names as QNames, Namespaces};
 	use quill::tree::NodeInfo;
 
+	/// The plain model keeps names in Rust strings, which cannot hold an unpaired surrogate; these two private-use characters
+	/// stand for U+D800 and U+DFFF on the way into and out of quill's / duke's JavaString based types.
+	pub const LONE_HI: char = '\u{E000}';
+	pub const LONE_LO: char = '\u{E001}';
 	pub fn js(s: &str) -> JavaString {
-		JavaString::from(s.to_string())
+		if !s.contains([LONE_HI, LONE_LO]) {
+			return JavaString::from(s.to_string());
+		}
+		let mut out = JavaString::new();
+		for c in s.chars() {
+			match c {
+				LONE_HI => out.push_java(java_string::JavaCodePoint::from_u32(0xD800).unwrap()),
+				LONE_LO => out.push_java(java_string::JavaCodePoint::from_u32(0xDFFF).unwrap()),
+				c => out.push(c),
+			}
+		}
+		out
 	}
 	pub fn class_name(s: &str) -> Result<ObjClassName> {
 		ObjClassName::try_from(js(s))
 	}
 	pub fn jstr_to_string(s: &JavaStr) -> Result<String> {
-		Ok(s.as_str().map_err(|e| anyhow!("not utf8: {e:?}"))?.to_string())
+		if let Ok(x) = s.as_str() {
+			return Ok(x.to_string());
+		}
+		s.chars()
+			.map(|cp| match cp.as_u32() {
+				0xD800 => Ok(LONE_HI),
+				0xDFFF => Ok(LONE_LO),
+				v => char::from_u32(v).ok_or_else(|| anyhow!("surrogate U+{v:04X} has no stand-in in the plain model")),
+			})
+			.collect()
 	}
 
 	fn qnames<const N: usize, T>(names: &Names, f: impl Fn(&str) -> Result<T>) -> Result<QNames<N, T>>
